@@ -425,6 +425,7 @@ pub fn record_sessions(rest: &[String]) -> anyhow::Result<()> {
         {
             let mut g = gen::Gen::new(&mut rng);
             g.set_fail_rate(40);
+            g.set_dialect(true);
             for _ in 0..nchunks {
                 let k = 1 + g.rng.below(stmts as u64) as usize;
                 let mut b = g.block(k, 2);
